@@ -982,11 +982,16 @@ impl Checker {
             && let Some(core) = world.core_snapshot()
         {
             // crash counter in the core == model (for tasks still known to the core)
+            let mut resync: Vec<(TaskKey, u32)> = Vec::new();
             for t in &core.tasks {
                 let k = tkey(t.id);
                 if let Some(mt) = self.model.task(k)
                     && mt.crash_count != t.crash_counter
                 {
+                    // the difference is reported once; later expectations (does the next loss
+                    // reach the limit?) continue from the server's count so that the same root
+                    // cause is not reported again under other names
+                    resync.push((k, t.crash_counter));
                     fnd(
                         out,
                         "C07",
@@ -1002,6 +1007,11 @@ impl Checker {
                         ),
                         step,
                     );
+                }
+            }
+            for (k, c) in resync {
+                if let Some(mt) = self.model.task_mut(k) {
+                    mt.crash_count = c;
                 }
             }
         }
